@@ -88,7 +88,7 @@ export function genTy(rng, d, sc) {
     if (r === 8 && sc.params.length) return [A("ref"), rng.pick(sc.params)];
     return A(rng.pick(["string", "number"]));
   }
-  switch (rng.below(24)) {
+  switch (rng.below(25)) {
     case 21: case 22: { // discriminated union whose variants are intersections re-declaring the discriminator (wider ∩ narrower)
       const key = rng.pick(["t", "kind"]);
       const lit = (v) => [A("lit"), [A("s"), v]];
@@ -97,6 +97,14 @@ export function genTy(rng, d, sc) {
       const narrow = (v) => [A("obj"), [[key, A("false"), lit(v)], ...extra()], A("none")];
       const variant = (v) => (rng.chance(1, 2) ? [A("inter"), wide, narrow(v)] : [A("inter"), narrow(v), wide]);
       return [A("union"), variant("a"), ...(rng.chance(1, 2) ? [variant("b")] : []), narrow("c")];
+    }
+    case 23: { // intersection members that share a key: same type with different optionality, or a narrower type
+      const k = rng.pick(["a", "b", "t"]);
+      const ty = genTy(rng, 0, sc);
+      const others = (skip) => genObjMembers(rng, d - 1, sc).filter((m) => m[0] !== skip);
+      const m1 = [A("obj"), [[k, A("false"), ty], ...others(k)], A("none")];
+      const m2 = [A("obj"), [[k, A("true"), ty], ...others(k)], A("none")];
+      return rng.chance(1, 2) ? [A("inter"), m1, m2] : [A("inter"), m2, m1];
     }
     case 0: case 1: case 2: return genObj(rng, d, sc);
     case 3: return [A(rng.chance(1, 2) ? "array" : "arr2"), genTy(rng, d - 1, sc)];
@@ -418,18 +426,30 @@ function defaultExprProject(rng) {
   const use = rng.pick(["typeof cfg", "(typeof cfg)[\"name\"]", "{ c: typeof cfg }", "keyof typeof cfg"]);
   return [["entry.ts", `import cfg from "./config";\nparse.buildParsers<{ Cfg: ${use} }>();\n`], ["config.ts", lib]];
 }
+const SEM_EXPRS = ["Exclude<Rec | string, string>", "Exclude<Tp | string, string>", "Array<Tp>[number]", "Exclude<Rec | Tp, Tp>", "keyof Rec", "({ a: Rec } | { a: 1 })[\"a\"]", "Exclude<Rec2 | number, number>", "Exclude<Tp | Rec2 | null, null>", "Tp[1]", "Exclude<\"a\" | \"b\" | number, \"a\">"];
+function semanticProject(rng) {
+  const decls = "type Rec = { next: Rec | null };\ntype Tp = [string, ...Tp[]];\ntype Rec2 = { v: number; kids?: Array<Rec2> };\n";
+  const n = 2 + rng.below(3);
+  const exps = Array.from({ length: n }, (_, i) => `E${i}: ${rng.pick(SEM_EXPRS)}`).join(", ");
+  return [["entry.ts", decls + `parse.buildParsers<{ ${exps} }>();\n`]];
+}
 function valuesProject(rng) {
   const n = 2 + rng.below(6);
   const names = Array.from({ length: n }, (_, i) => rng.pick(["v", "w", "Z", "a", "m"]) + i);
   const lib = names.map((nm) => `export const ${nm} = ${rng.pick(VALUE_EXPORTS)};`).join("\n") + (rng.chance(1, 3) ? "\nexport type T0 = string;\nexport enum En { A, B }" : "") + "\n";
   const use = rng.pick(["typeof L", "typeof L." + names[0], "(typeof L)[keyof typeof L]", "keyof typeof L", "{ x: typeof L }"]);
   const entry = `import * as L from "./vals";\nparse.buildParsers<{ E0: ${use} }>();\n`;
+  if (rng.chance(1, 2)) { // the names reach `vals` through a re-export (kept in a different table of the exporting module)
+    const reexp = rng.chance(1, 2) ? `export { ${names.join(", ")} } from "./other";\n` : `import { ${names.join(", ")} } from "./other";\nexport { ${names.join(", ")} };\n`;
+    return [["entry.ts", entry], ["vals.ts", reexp], ["other.ts", lib]];
+  }
   return [["entry.ts", entry], ["vals.ts", lib]];
 }
 export function genTotal(rng, params) {
   let p = genProg(rng);
   if (rng.chance(1, 12)) return [A("total"), A(String(counter++)), A("none"), valuesProject(rng), []];
   if (rng.chance(1, 12)) return [A("total"), A(String(counter++)), A("none"), defaultExprProject(rng), []];
+  if (rng.chance(1, 12)) return [A("total"), A(String(counter++)), A("none"), semanticProject(rng), []];
   const vals = genValues(rng, p, Number(params[0] || 6));
   const r = rng.below(10);
   let tied = true, files;
